@@ -634,6 +634,15 @@ def fault_scenarios(shapes, L, seed):
                         others.append(Scenario(sh, base + [f"cmpfuse {k}", "sort r0 sort"] + AFTER, "sort-fault"))
                     else:
                         others.append(Scenario(sh, base + [f"sort r0 {entry} mod=3 panic={k}"] + AFTER, "sort-fault"))
+            # the same on inputs that are far from sorted (descending keys, so that a sort moves every element) and a little
+            # longer; after the caught panic the container is sorted again, through the inherent and the trait entry points
+            for n2 in sorted({n, n + 2}):
+                base2 = [f"collect r0 {tl([(n2 - i) % 32 for i in range(n2)])}"]
+                for entry in SORT_ENTRIES:
+                    if entry == "sort": continue
+                    for k in range(0, 3 * n2 + 2):
+                        others.append(Scenario(sh, base2 + [f"sort r0 {entry} mod=7 panic={k}"] + AFTER +
+                                               ["sort r0 sort_by_key mod=7", "sort r0 tvec_sort_by mod=5", "len r0"], "sort-fault-unsorted"))
             # user Clone: to_vec, resize, extend_from_slice, Extend<Ref>, to_owned
             for k in range(0, nl * (n + 2) + 1):
                 if cl:
